@@ -479,3 +479,21 @@ func fieldValues(t *Trace, f *types.Var, base *Sym) map[string]bool {
 	}
 	return out
 }
+
+// loadedFrom reports whether sym v is a value that was loaded from (or stored to) a cell of field f
+// somewhere in events [lo,hi) of the trace.
+func loadedFrom(t *Trace, v *Sym, f *types.Var, lo, hi int) bool {
+	if _, ok := isInitOfField(v, f); ok {
+		return true
+	}
+	for j := lo; j < hi && j < len(t.Events); j++ {
+		e := t.Events[j]
+		if e.Kind == EvLoad && e.Addr.isFieldAddrOf(f) && e.Res.Key() == v.Key() {
+			return true
+		}
+		if e.Kind == EvStore && e.Addr.isFieldAddrOf(f) && e.Val.Key() == v.Key() {
+			return true
+		}
+	}
+	return false
+}
